@@ -297,14 +297,13 @@ func (o *Once) Do(f func()) {
 // Go replaces the go statement.
 func Go(f func()) {
 	e := cur()
-	if e == nil {
+	if e == nil || e.self() == nil {
 		go f()
 		return
 	}
 	if e.aborting.Load() {
 		return
 	}
-	mustSelf(e, "Go")
 	e.spawn("go", f)
 }
 
@@ -404,7 +403,10 @@ func chanOp(ch any, send bool) (e *Exec, t *thread, paired bool) {
 	if e == nil || e.aborting.Load() {
 		return nil, nil, false
 	}
-	t = mustSelf(e, "channel operation")
+	t = e.self()
+	if t == nil { // goroutine not owned by the scheduler (started before the execution): real operation
+		return nil, nil, false
+	}
 	c := mkCase(ch, send)
 	e.yield(t, pend{kind: opSelect, cases: []selCase{c}, desc: caseDesc(e, c)})
 	paired = c.ch.IsValid() && c.ch.Cap() == 0 && !e.chanClosed(c)
@@ -454,7 +456,7 @@ func (s SendTok) Done() {
 func Close(ch any) {
 	e := cur()
 	v := reflect.ValueOf(ch)
-	if e == nil || e.aborting.Load() {
+	if e == nil || e.aborting.Load() || e.self() == nil {
 		v.Close()
 		return
 	}
@@ -498,7 +500,10 @@ func Select(hasDefault bool, cases ...Case) Sel {
 	if e == nil || e.aborting.Load() {
 		return Sel{I: -2}
 	}
-	t := mustSelf(e, "select")
+	t := e.self()
+	if t == nil {
+		return Sel{I: -2}
+	}
 	p := pend{kind: opSelect, hasDef: hasDefault}
 	desc := "select["
 	for i, c := range cases {
@@ -541,7 +546,7 @@ func Range[T any](ch <-chan T) iter.Seq[T] {
 // Now is the virtual clock under an execution.
 func Now() time.Time {
 	e := cur()
-	if e == nil {
+	if e == nil || e.self() == nil {
 		return time.Now()
 	}
 	return baseTime.Add(time.Duration(e.now))
@@ -574,7 +579,7 @@ func (e *Exec) arm(tm *timer, d time.Duration) {
 
 func NewTimer(d time.Duration) *Timer {
 	e := cur()
-	if e == nil || e.aborting.Load() {
+	if e == nil || e.aborting.Load() || e.self() == nil {
 		rt := time.NewTimer(d)
 		return &Timer{C: rt.C, real: rt}
 	}
@@ -587,7 +592,7 @@ func NewTimer(d time.Duration) *Timer {
 
 func AfterFunc(d time.Duration, f func()) *Timer {
 	e := cur()
-	if e == nil || e.aborting.Load() {
+	if e == nil || e.aborting.Load() || e.self() == nil {
 		return &Timer{real: time.AfterFunc(d, f)}
 	}
 	tm := &timer{fn: f}
@@ -626,7 +631,7 @@ func (t *Timer) Reset(d time.Duration) bool {
 
 func Sleep(d time.Duration) {
 	e := cur()
-	if e == nil || e.aborting.Load() {
+	if e == nil || e.aborting.Load() || e.self() == nil {
 		time.Sleep(d)
 		return
 	}
